@@ -150,6 +150,16 @@ theorem llh2xyz_opposite_meridian (ell : Ellipsoid) (lat lon h : ℝ) :
   rw [llh2xyz_closed_form, llh2xyz_closed_form, hl, Real.sin_add_pi, Real.cos_add_pi]
   simp only [mul_neg]
 
+/-- the height is measured along the ellipsoid normal: the point at height `h` is the surface point (`h = 0`) plus `h` times the
+unit normal `(cos φ cos λ, cos φ sin λ, sin φ)` — for every ellipsoid value and every height (−10⁴ … 4·10⁷ m in the quantifier). -/
+theorem llh2xyz_height_along_normal (ell : Ellipsoid) (lat lon h : ℝ) :
+    llh2xyz lat lon h ell =
+      ((llh2xyz lat lon 0 ell).1 + h * (Real.cos (lat * (Real.pi / 180)) * Real.cos (lon * (Real.pi / 180))),
+       (llh2xyz lat lon 0 ell).2.1 + h * (Real.cos (lat * (Real.pi / 180)) * Real.sin (lon * (Real.pi / 180))),
+       (llh2xyz lat lon 0 ell).2.2 + h * Real.sin (lat * (Real.pi / 180))) := by
+  rw [llh2xyz_closed_form, llh2xyz_closed_form]
+  refine Prod.ext ?_ (Prod.ext ?_ ?_) <;> simp only <;> ring
+
 /-- North/south pole (`lat = ±90`) on a constructed ellipsoid with `0 < f < 1`:
 `x = y = 0`, `z = ±(b + h)`. -/
 theorem llh2xyz_poles (a invf : ℝ) (ha : a ≠ 0) (hf0 : 0 < 1 / invf) (hf1 : 1 / invf < 1)
@@ -545,6 +555,7 @@ end GeodeVerif.C03
 #print axioms GeodeVerif.C03.llh2xyz_equator
 #print axioms GeodeVerif.C03.llh2xyz_poles
 #print axioms GeodeVerif.C03.llh2xyz_mirror
+#print axioms GeodeVerif.C03.llh2xyz_height_along_normal
 #print axioms GeodeVerif.C03.llh2xyz_lon_period
 #print axioms GeodeVerif.C03.llh2xyz_opposite_meridian
 #print axioms GeodeVerif.C03.on_ellipsoid
